@@ -58,7 +58,7 @@ Print Assumptions wrong_ack_harmless.
 Example c03_history :
   let run := fold_left (λ st o, let r := step [] st.1 o in (r.1, (st.2 ++ [r.2])%list)) in
   let ops := [EConnect 0%nat "sub" "c-sub" "" "" 60 None 10; ESubscribe "sub" 1 [("t/#", 1)] 20;
-              EConnect 0%nat "pub" "c-pub" "" "" 60 None 30; EPublish "pub" (Publish "t/a" "x" 0 false) false 0 40;
+              EConnect 0%nat "pub" "c-pub" "" "" 60 None 30; EPublish "pub" (Publish "t/a" "x" 0 false false) false 0 40;
               ESweep 0%nat; EAck "sub" PUBREC (RefRaw 1) 50; ESweep 0%nat; EAck "sub" PUBACK (RefRaw 1) 60; ESweep 0%nat] in
   let o := (run ops (cnew 1%nat, [])).2 in
   nth 4%nat o [] = [Out "sub" (OPublish "t/a" "x" 1 false false 1)] ∧ nth 5%nat o [] = [Deadline "sub" 120000]
